@@ -2,7 +2,7 @@
 # Build the framework offline from files on disk: translators -> Generated Lean modules -> library, certificates, driver.
 set -e
 cd "$(dirname "$0")"
-export PYTHONPATH="/verif:/repo${PYTHONPATH:+:$PYTHONPATH}"
+export PYTHONPATH="$PWD:${XV_REPO:-/repo}${PYTHONPATH:+:$PYTHONPATH}"
 mkdir -p .cache evidence replays
 /venv/bin/python -X utf8 -c "
 import sys; sys.path.insert(0, '.')
